@@ -15,7 +15,7 @@ RULE = ("cases of the generators of C01/C02/C03/C05/C06/C08/C09/C15/C17 (entry p
         "CMRtuCompleteDecomposition / CMRregularCompleteDecomposition / CMRregularRefineDecomposition, "
         "CMRgraphicTest*, CMRnetworkTest*, CMRspTest*/CMRspDecompose*, CMRcamionTestSigns/ComputeSigns, CMRctuTest, "
         "CMRbalancedTest), sampled per stream; for each: every k in 0..N (N = clock reads of the unlimited run; quick "
-        "tier: at most 64 evenly spread k per case; all k for the deep 3-sum family) on the ASan+UBSan build; non-trivial = distinct (case, k) in which the "
+        "tier: at most 64, thorough tier at most 1200 evenly spread k per case; all k for the deep 3-sum family) on the ASan+UBSan build; non-trivial = distinct (case, k) in which the "
         "limited call actually returned CMR_ERROR_TIMEOUT")
 TRUSTED = ["link-time interception of clock() (-Wl,--wrap=clock): read r returns r ticks, from read k on 2000 s more; "
            "TimeoutModel.v states this schedule and the remaining-time rule by hand (not translated from the 88 call sites)",
@@ -85,7 +85,7 @@ def tl_key(api, keyfn, line, code, rec, xline):
 
 def run(ctx):
     cap = 40 if ctx.quick else 600
-    maxk = 64 if ctx.quick else 0
+    maxk = 64 if ctx.quick else 1200      # at most this many (evenly spread) injection points per case
     col = Collector(ctx, cap, maxk)
     for name in SOURCES:
         importlib.import_module("props." + name).run(col)
@@ -112,7 +112,7 @@ def run(ctx):
     exe = ctx.drive("dbg")
     env = dict(os.environ)
     env["ASAN_OPTIONS"] = "detect_leaks=1:allocator_may_return_null=1"
-    env["DRIVE_CASE_SECONDS"] = "120"
+    env["DRIVE_CASE_SECONDS"] = "120" if ctx.quick else "900"   # a case is N+1 runs of the call (N clock reads), on a loaded machine
     flags = {}
     recs, crashes = vlib.run_drive(exe, "tlimit", lines, env=env, flags=flags)
     codes = vlib.run_judge("tlimit", recs)
